@@ -4,6 +4,8 @@ cd "$(dirname "$0")" || exit 1
 chmod +x check tools/bin/* tools/*.py 2>/dev/null
 /venv/bin/python -c "import hypothesis" 2>/dev/null || /venv/bin/pip install --no-index --find-links /opt/veriftools/wheels hypothesis || exit 1
 mkdir -p evidence replays
+# atheris (coverage-guided fuzzing, C11) into a private directory next to the checks
+/venv/bin/python -c "import sys; sys.path.insert(0, '.deps'); import atheris" 2>/dev/null || /venv/bin/pip install -q --no-index --find-links /opt/veriftools/wheels --target .deps atheris || exit 1
 export PYTHONPATH="/repo/src:$(pwd)" PYTHONDONTWRITEBYTECODE=1
 /venv/bin/python -B -W ignore tools/xmlsec/selftest.py || exit 1
 echo setup ok
